@@ -70,6 +70,34 @@ def run(ctx):
             add("c11", "%s (%s)" % (BODIES[0][0], variant), BODIES[0][1], off, ["en"], name)
             add("c11", "%s%s" % (BODIES[0][0], variant), BODIES[0][1], off, ["en"], name)      # attached to the last digit
             add("c11", "Thu Mar 05 10:11:12 %s 2015" % variant, BODIES[0][1], off, ["en"], name)  # the Unix date(1) shape
+    # ---- bodies with every English month name (a name may contain letters that look like a zone: "Sept" holds "EPT"),
+    # and earlier calls of the same process: the zone is found by FIRST match in the ordered table whatever was parsed
+    # before - a bare "UTC" / "GMT" / abbreviation first, then the numeric spelling with the same letters
+    MONTHS = ["January", "February", "March", "April", "May", "June", "July", "August", "September", "October", "November", "December",
+              "Jan", "Feb", "Mar", "Apr", "Jun", "Jul", "Aug", "Sep", "Sept", "Oct", "Nov", "Dec"]
+    MNUM = {m: (i % 12) + 1 for i, m in enumerate(MONTHS[:12])}
+    MNUM.update({"Jan": 1, "Feb": 2, "Mar": 3, "Apr": 4, "Jun": 6, "Jul": 7, "Aug": 8, "Sep": 9, "Sept": 9, "Oct": 10, "Nov": 11, "Dec": 12})
+    st0 = {"RELATIVE_BASE": [2021, 6, 15, 12, 0, 0, 0]}
+    for m in MONTHS:
+        body, wall = "15 %s 2020 10:30" % m, [2020, MNUM[m], 15, 10, 30, 0, 0]
+        offs = offsets if not ctx.quick() else rng.sample(offsets, 6) + [0, 10800, -18000]
+        for off in offs:
+            sps = spellings(off)
+            for sp in (sps if not ctx.quick() else rng.sample(sps, 3)):
+                add("c11", body + " " + sp, wall, off, ["en"], sp)
+                if sp[:3] in ("UTC", "GMT"):
+                    add("c11", body + " " + sp, wall, off, rng.choice([["en"], None]), sp)
+                    cases[-1]["pre"] = [{"s": body + " " + sp[:3], "kw": {"languages": ["en"]}, "settings": st0}]
+        for name, aoff in (abbrs if not ctx.quick() else rng.sample(abbrs, 12)):
+            add("c11", "%s %s" % (body, name), wall, aoff, ["en"], name)
+            # the JavaScript shape after the abbreviation alone was parsed: the NUMERIC part decides (a supported offset)
+            off = rng.choice(offsets)
+            sign = "+" if off >= 0 else "-"
+            num = "%s%02d%02d" % (sign, abs(off) // 3600, (abs(off) % 3600) // 60)
+            pfx = rng.choice(["GMT", "UTC"])
+            add("c11", "%s %s%s (%s)" % (body, pfx, num, name), wall, off, ["en"], "%s%s (..)" % (pfx, num))
+            cases[-1]["pre"] = [{"s": "%s %s" % (body, name), "kw": {"languages": ["en"]}, "settings": st0}]
+        add("naive", body, wall, NAIVE, ["en"], "")
     for body, wall in BODIES:
         for langs in (["en"], None):
             add("naive", body, wall, NAIVE, langs, "")
